@@ -385,7 +385,15 @@ func closePosColl(pos perptypes.Position, collAsset string) {
 		return // failed transaction: rolled back by baseapp
 	}
 	vrf.Cover("close-ok")
-	_ = m
+	if _, gerr := env.Perp.GetMTP(ctx, trader, 1); gerr != nil {
+		vrf.Cover("position-gone")
+		if pos == perptypes.Position_SHORT && amt.LT(m.Liabilities) {
+			// a PARTIAL close that removed the position: its custody had been used up by interest / funding. That
+			// case is the known finding C09-short-partial-close-destroys, decided by H_Finding_ShortPartialCloseDestroys
+			vrf.Cover("custody-exhausted")
+			return
+		}
+	}
 	s.check("close")
 }
 
@@ -585,4 +593,32 @@ func H_Open_SameAssetOtherPool() {
 	vrf.Cover("open-ok")
 	s.noC11 = true // pool 1 is not touched; C11 of pool 2 is not modelled here
 	s.check("open-on-other-pool")
+}
+
+
+// The known finding on a small state: a SHORT whose custody (<= 10) is dwarfed by its liabilities (>= 1e5), so that the
+// accrued interest / funding uses the custody up; a partial close then removes the position.
+//vrf:cover close-ok
+//vrf:bound SHORT position with custody <= 10, liabilities in [1e5, 1e6], close amount < liabilities; amm estimates havocked, never failing
+//vrf:max-paths 400
+//vrf:assert-ms 20000
+//vrf:exact-ms 20000
+//vrf:allow-abort path budget exceeded
+func H_Finding_ShortPartialCloseDestroys() {
+	estNoFail = true
+	s, m := setupPos(perptypes.Position_SHORT)
+	env, ctx := s.env, s.env.Ctx
+	vrf.Assume(m.Custody.LTE(sdkmath.NewInt(10)))
+	vrf.Assume(m.Liabilities.GTE(sdkmath.NewInt(100000)))
+	vrf.Assume(m.Liabilities.LTE(sdkmath.NewInt(1000000)))
+	amt := vrf.Int("closeAmount")
+	vrf.Assume(amt.IsPositive())
+	vrf.Assume(amt.LT(m.Liabilities))
+	if _, err := env.Perp.Close(ctx, &perptypes.MsgClose{Creator: trader.String(), Id: 1, Amount: amt}); err != nil {
+		return
+	}
+	vrf.Cover("close-ok")
+	_, gerr := env.Perp.GetMTP(ctx, trader, 1)
+	vrf.AssertExcept(gerr == nil, "C09 close: a partial close does not remove the position (and what it still owes) from the books",
+		"C09-short-partial-close-destroys", gerr != nil)
 }
